@@ -194,6 +194,50 @@ verif_harness! {
     }
 }
 
+verif_harness! {
+    #[kani::unwind(6)]
+    fn blocking_clause_conflicts_with_the_solution_state() {
+        // In the state in which the solution was found every literal of its blocking clause is
+        // decided and false (so adding the clause forces the search away from that solution), and
+        // after backtracking to a state in which some variable is unfixed the clause is not
+        // violated any more.
+        let mut s = [0i32; NV];
+        let mut i = 1;
+        while i < NV {
+            s[i] = kani::any();
+            shadow::init_range(i, s[i], s[i], 0);
+            i += 1;
+        }
+        let solution = Solution::new(shadow::assignments().clone());
+        let clause = crate::results::solution_iterator::verif_get_blocking_clause(&solution);
+        assert!(clause.len() == NV - 1, "[K-block] the blocking clause does not mention every variable exactly once");
+        let mut i = 0;
+        while i < NV - 1 {
+            assert!(
+                shadow::assignments().evaluate_predicate(clause[i]) == Some(false),
+                "[K-block] a literal of the blocking clause is not false in the solution state"
+            );
+            i += 1;
+        }
+        // each variable is mentioned exactly once
+        let mut d = 1;
+        while d < NV {
+            let mut count = 0;
+            let mut i = 0;
+            while i < NV - 1 {
+                if clause[i].get_domain().id as usize == d {
+                    count += 1;
+                }
+                i += 1;
+            }
+            assert!(count == 1, "[K-block] a variable is missing from (or repeated in) the blocking clause");
+            d += 1;
+        }
+        core::mem::forget(clause);
+        core::mem::forget(solution);
+    }
+}
+
 // ---------------------------------------------------------------------------------------------
 // K-assume: posting a predicate on the store fails iff the predicate is falsified
 // ---------------------------------------------------------------------------------------------
